@@ -672,7 +672,7 @@ func (f *Frame) value(ins ssa.Value, st State) (Val, State) {
 		mvs := ArraySort(SInt, ArraySort(ks, vs))
 		st.Heap = st.Heap.Set(md, vc.Define("h."+md, Store(st.Heap.Comp(md, mds), r, ConstArray(ArraySort(ks, SBool), False))))
 		st.Heap = st.Heap.Set(mv, vc.Define("h."+mv, Store(st.Heap.Comp(mv, mvs), r, ConstArray(ArraySort(ks, vs), f.w.Sorts.Zero(vs)))))
-		st.Heap = st.Heap.Set(mapSizeComp, vc.Define("h.MS", Store(st.Heap.Comp(mapSizeComp, ArraySort(SInt, SInt)), r, IntLit(0))))
+		st.Heap = st.Heap.Set(mapSizeComp(ks, vs), vc.Define("h.MS", Store(st.Heap.Comp(mapSizeComp(ks, vs), ArraySort(SInt, SInt)), r, IntLit(0))))
 		return Val{T: r}, st
 	case *ssa.MakeClosure:
 		return f.makeClosure(ins, st)
@@ -898,9 +898,9 @@ func (f *Frame) mapUpdate(ins *ssa.MapUpdate, st State) State {
 	mdn, mvn := mapDomComp(ks, vs), mapValComp(ks, vs)
 	md := st.Heap.Comp(mdn, ArraySort(SInt, ArraySort(ks, SBool)))
 	mv := st.Heap.Comp(mvn, ArraySort(SInt, ArraySort(ks, vs)))
-	ms := st.Heap.Comp(mapSizeComp, ArraySort(SInt, SInt))
+	ms := st.Heap.Comp(mapSizeComp(ks, vs), ArraySort(SInt, SInt))
 	was := Sel(Sel(md, m), k)
-	st.Heap = st.Heap.Set(mapSizeComp, vc.Define("h.MS", Store(ms, m, Ite(was, Sel(ms, m), Add(Sel(ms, m), IntLit(1))))))
+	st.Heap = st.Heap.Set(mapSizeComp(ks, vs), vc.Define("h.MS", Store(ms, m, Ite(was, Sel(ms, m), Add(Sel(ms, m), IntLit(1))))))
 	st.Heap = st.Heap.Set(mdn, vc.Define("h."+mdn, Store(md, m, Store(Sel(md, m), k, True))))
 	st.Heap = st.Heap.Set(mvn, vc.Define("h."+mvn, Store(mv, m, Store(Sel(mv, m), k, v))))
 	return st
